@@ -46,6 +46,9 @@ var c08Queries = []string{
 	"SELECT id FROM {T} WHERE a > GETVAR('min')",
 	"SELECT id, GETVAR('tag') AS tag, CONSTANT('c') AS c FROM {T} WHERE a >= CONSTANT('c')",
 	"SELECT SETVAR('last', id), GETVAR('last') AS last FROM {T}",
+	// operands that navigate back to the document from inside the inner arrays
+	"SELECT id FROM {T} WHERE a >= `<-.lo`",
+	"SELECT id, `<-.tag` AS t FROM {T} WHERE b = `<-.tag` OR a > 2",
 	// columns qualified with the table's own name (a path into the row: NULL on this data, for the
 	// one-dimensional and the nested source alike)
 	// deferred values: every inner array's calls are awaited before the result is handed out
@@ -147,6 +150,19 @@ func (p *c08) Init(tier string) {
 		}
 		p.docs = append(p.docs, []any{[]any{mkInner(inners[a], 0)}}, []any{[]any{[]any{mkInner(inners[a], 0)}}})
 	}
+	// mixed depth: rows next to inner arrays
+	for _, a := range small[:3] {
+		for _, b := range small[:3] {
+			row := mkInner(inners[1], 40)
+			if len(row) == 0 {
+				continue
+			}
+			p.docs = append(p.docs,
+				[]any{row[0], mkInner(inners[a], 0), mkInner(inners[b], 10)},
+				[]any{mkInner(inners[a], 0), row[0]},
+				[]any{mkInner(inners[a], 0), row[0], []any{mkInner(inners[b], 10)}})
+		}
+	}
 	p.docs = append(p.docs, []any{[]any{}, []any{[]any{}}}, []any{})
 }
 
@@ -169,7 +185,7 @@ func (p *c08) expected(r *core.CaseResult, q string, v []any, flat *[]any) (any,
 	}
 	if isRows && len(v) > 0 || len(v) == 0 {
 		// the same statement, with the table name bound to one inner array
-		o := gq.Run(map[string]any{"m": gq.Clone(any(v))}, strings.ReplaceAll(q, "{T}", "m"), c08Opts(p.vars)...)
+		o := gq.Run(map[string]any{"m": gq.Clone(any(v)), "lo": 2.0, "tag": "x"}, strings.ReplaceAll(q, "{T}", "m"), c08Opts(p.vars)...)
 		r.Execs++
 		if o.Failed() {
 			return nil, false
@@ -181,7 +197,19 @@ func (p *c08) expected(r *core.CaseResult, q string, v []any, flat *[]any) (any,
 	for _, x := range v {
 		sub, ok := x.([]any)
 		if !ok {
-			return nil, false
+			// mixed depth: a row next to inner arrays is filtered and projected where it sits
+			row, isRow := x.(map[string]any)
+			if !isRow {
+				return nil, false
+			}
+			o := gq.Run(map[string]any{"m": []any{gq.Clone(any(row))}, "lo": 2.0, "tag": "x"}, strings.ReplaceAll(q, "{T}", "m"), c08Opts(p.vars)...)
+			r.Execs++
+			if o.Failed() {
+				return nil, false
+			}
+			*flat = append(*flat, o.Rows...)
+			out = append(out, o.Rows...)
+			continue
 		}
 		e, ok := p.expected(r, q, sub, flat)
 		if !ok {
@@ -190,6 +218,22 @@ func (p *c08) expected(r *core.CaseResult, q string, v []any, flat *[]any) (any,
 		out = append(out, e)
 	}
 	return out, true
+}
+
+// mixedDepth: some array of the source holds rows next to inner arrays.
+func mixedDepth(v []any) bool {
+	rows, arrays := 0, 0
+	for _, x := range v {
+		if sub, ok := x.([]any); ok {
+			arrays++
+			if mixedDepth(sub) {
+				return true
+			}
+		} else {
+			rows++
+		}
+	}
+	return rows > 0 && arrays > 0
 }
 
 func depthOf(v any) int {
@@ -235,6 +279,9 @@ func (p *c08) RunCase(i int) *core.CaseResult {
 			}
 			m = full[1:]
 		}
+		if mixedDepth(full) && (strings.Contains(q, "AVG(") || strings.Contains(q, "MAX(") || strings.Contains(q, "MIN(") || strings.Contains(q, "COUNT(")) {
+			continue // what a whole-table aggregate ranges over at a level that mixes rows and arrays is not specified
+		}
 		var flat []any
 		p.vars = map[string]any{"min": 1.0, "tag": "x"}
 		want, ok := p.expected(r, q, m, &flat)
@@ -245,7 +292,7 @@ func (p *c08) RunCase(i int) *core.CaseResult {
 		if len(m) == 0 && !mix && !ranged {
 			continue
 		}
-		doc := map[string]any{"m": gq.Clone(any(full))}
+		doc := map[string]any{"m": gq.Clone(any(full)), "lo": 2.0, "tag": "x"}
 		src, msrc := "m", "`mix=>m`"
 		if ranged {
 			src, msrc = "`m[(1:end)]`", "`mix=>m[(1:end)]`"
@@ -278,8 +325,8 @@ func (p *c08) RunCase(i int) *core.CaseResult {
 			if mix {
 				other = strings.ReplaceAll(q, "{T}", src)
 			}
-			gq.Run(map[string]any{"m": gq.Clone(any(full))}, other, c08Opts(map[string]any{"min": 1.0, "tag": "x"})...)
-			again := outcome(gq.Run(map[string]any{"m": gq.Clone(any(full))}, sql, c08Opts(map[string]any{"min": 1.0, "tag": "x"})...))
+			gq.Run(map[string]any{"m": gq.Clone(any(full)), "lo": 2.0, "tag": "x"}, other, c08Opts(map[string]any{"min": 1.0, "tag": "x"})...)
+			again := outcome(gq.Run(map[string]any{"m": gq.Clone(any(full)), "lo": 2.0, "tag": "x"}, sql, c08Opts(map[string]any{"min": 1.0, "tag": "x"})...))
 			r.Execs += 2
 			if again != got {
 				r.Fail("C08|cache|nested-and-mix-interfere", fmt.Sprintf("%s on m=%s returned %s, but %s after %s had been evaluated in the same process", sql, gq.Render(full), got, again, other), map[string]any{"sql": sql, "then": other, "doc": map[string]any{"m": full}})
@@ -302,7 +349,7 @@ func (p *c08) RunCase(i int) *core.CaseResult {
 
 func (p *c08) Meta() core.Meta {
 	return core.Meta{
-		Rule:        "one case per (query, kind): 34 filter / projection queries (every WHERE operator family, non-idempotent select lists such as a+1 AS a, star plus expression, CASE, function calls, whole-table aggregates evaluated per row, GETVAR / SETVAR / CONSTANT under WithVars and WithConstants, ASYNC and AWAIT items) run on a FROM path that resolves to arrays of arrays: every outer array of 1..2 (thorough 3) inner arrays, each any sequence of <= 2 rows over 3 archetypes (ragged, empty), plus depth-3 and depth-4 nestings (incl. levels with exactly as many arrays as their parent has elements, and empty arrays next to deeper ones); the nested result must equal the per-inner-array executions of the same query, and `mix=>` + one query must equal their concatenation; both also with the source given as a range with an open end (`m[(1:end)]`, `mix=>m[(1:end)]`, and the same with keep=>) over outer arrays of different lengths in one process. non-trivial = some inner result is non-empty",
+		Rule:        "one case per (query, kind): 36 filter / projection queries (every WHERE operator family, non-idempotent select lists such as a+1 AS a, star plus expression, CASE, function calls, whole-table aggregates evaluated per row, GETVAR / SETVAR / CONSTANT under WithVars and WithConstants, ASYNC and AWAIT items, operands that navigate back to the document with `<-`) run on a FROM path that resolves to arrays of arrays: every outer array of 1..2 (thorough 3) inner arrays, each any sequence of <= 2 rows over 3 archetypes (ragged, empty), plus depth-3 and depth-4 nestings (incl. levels with exactly as many arrays as their parent has elements, and empty arrays next to deeper ones) and mixed-depth sources (rows next to inner arrays); the nested result must equal the per-inner-array executions of the same query, and `mix=>` + one query must equal their concatenation; both also with the source given as a range with an open end (`m[(1:end)]`, `mix=>m[(1:end)]`, and the same with keep=>) over outer arrays of different lengths in one process. non-trivial = some inner result is non-empty",
 		Assumptions: []string{"only WHERE and the select list are claimed for nested sources (the property's statement); ORDER BY / LIMIT / aggregates over nested sources are not exercised"},
 		Bounds:      map[string]any{"queries": len(c08Queries), "documents": len(p.docs)},
 		Exhaustive:  true,
